@@ -30,8 +30,34 @@ var evalChain = []string{
 
 var propTable = map[string]*propSpec{}
 
+var baseTrust = []string{"A-GEN", "A-SSA", "A-REFLECT", "A-STRCONV", "A-FMT", "A-ERRORS", "A-OPTS", "A-FN", "A-SEQ", "A-STR", "A-GLOBALS"}
+
+func trust(extra ...string) []string { return append(append([]string(nil), baseTrust...), extra...) }
+
+var optFuncs = []string{"bexpr.getOpts", "bexpr.getDefaultOptions", "bexpr.WithTagName", "bexpr.WithTagName$1", "bexpr.WithHookFn", "bexpr.WithHookFn$1",
+	"bexpr.WithUnknownValue", "bexpr.WithUnknownValue$1", "bexpr.WithLocalVariable", "bexpr.WithLocalVariable$1",
+	"bexpr.WithMaxExpressions", "bexpr.WithMaxExpressions$1"}
+
 func init() {
 	add := func(p *propSpec) { propTable[p.ID] = p }
+	add(&propSpec{ID: "C01", Level: "proof", Funcs: evalChain,
+		Trusted: trust("A-JSON", "A-REGEXP", "A-STRINGS", "A-PS", "A-HOOK", "A-SORT", "A-STACK")})
+	add(&propSpec{ID: "C02", Level: "proof", Funcs: []string{"bexpr.CoerceInt64", "bexpr.CoerceUint64", "bexpr.CoerceBool", "bexpr.CoerceFloat32", "bexpr.CoerceFloat64",
+		"bexpr.getMatchExprValue", "bexpr.primitiveEqualityFn", "bexpr.doEqualBool", "bexpr.doEqualInt64", "bexpr.doEqualUint64", "bexpr.doEqualFloat32",
+		"bexpr.doEqualFloat64", "bexpr.doEqualString", "bexpr.doMatchEqual", "bexpr.evaluateMatchExpression"},
+		Trusted: trust("A-JSON", "A-PS")})
+	add(&propSpec{ID: "C03", Level: "proof", Funcs: []string{"bexpr.evaluate"}, Trusted: trust("A-STACK")})
+	add(&propSpec{ID: "C04", Level: "proof", Funcs: []string{"bexpr.evaluateMatchExpression", "grammar.MatchOperator.NotPresentDisposition", "bexpr.doMatchIsEmpty", "bexpr.doMatchEqual", "bexpr.doMatchIn", "bexpr.doMatchMatches"},
+		Trusted: trust("A-PS", "A-REGEXP", "A-STRINGS", "A-JSON")})
+	add(&propSpec{ID: "C05", Level: "proof", Funcs: append([]string{"bexpr.getValue", "bexpr.evaluateNotPresent", "bexpr.derefValue", "grammar.MatchOperator.NotPresentDisposition",
+		"bexpr.evaluateMatchExpression", "bexpr.evaluateCollectionExpression", "bexpr.Evaluator.Evaluate"}, optFuncs...),
+		Trusted: trust("A-PS", "A-HOOK")})
+	add(&propSpec{ID: "C06", Level: "proof", Funcs: append([]string{"bexpr.evaluateCollectionExpression", "bexpr.evaluateCollectionExpression$1", "bexpr.getValue"}, optFuncs...),
+		Trusted: trust("A-PS", "A-SORT", "A-STACK")})
+	add(&propSpec{ID: "C14", Level: "proof", Funcs: []string{"bexpr.evaluateCollectionExpression", "bexpr.evaluateCollectionExpression$1"},
+		Trusted: trust("A-SORT", "A-PS")})
+	add(&propSpec{ID: "C18", Level: "proof", Funcs: append([]string{"bexpr.Evaluator.Evaluate", "bexpr.getValue"}, optFuncs...),
+		Trusted: trust("A-PS", "A-HOOK")})
 	add(&propSpec{ID: "C09", Level: "proof", Funcs: evalChain,
-		Trusted: []string{"A-GEN", "A-SSA", "A-REFLECT", "A-STRCONV", "A-REGEXP", "A-STRINGS", "A-FMT", "A-ERRORS", "A-JSON", "A-PS", "A-HOOK", "A-OPTS", "A-SORT", "A-STACK", "A-SEQ"}})
+		Trusted: trust("A-JSON", "A-REGEXP", "A-STRINGS", "A-PS", "A-HOOK", "A-SORT", "A-STACK")})
 }
